@@ -557,6 +557,7 @@ pub fn c11(cx: &mut Ctx) {
             let limit = if cx.rng.gen_bool(0.2) { cx.rng.gen_range(0..20) } else { 51200 };
             let mut s = script(limit, &["c11", "res", "popped", "pending", "sent", "wres", "files", "fdleak"], 0, evs, name);
             s["drain_after_read"] = json!(true);
+            s["c11_fresh"] = json!(true);
             cx.push(s);
         }
     }
@@ -600,7 +601,7 @@ pub fn c12(cx: &mut Ctx) {
             cx.next_tag += 1;
             evs.push(json!({"e": "read", "kind": "eof", "fds": [cx.next_tag]}));
         }
-        let mut sc = script(51200, &["files", "fdleak"], 0, evs, "fds");
+        let mut sc = script(51200, &["files", "files_rel", "fdleak"], 0, evs, "fds");
         sc["keep"] = json!(cx.rng.gen_bool(0.5));
         cx.push(sc);
     }
@@ -644,7 +645,7 @@ pub fn c12(cx: &mut Ctx) {
                 evs.push(rd_err(libc::EAGAIN));
             }
         }
-        let mut sc = script(51200, &["files", "fdleak", "res", "popped"], 0, evs, "fds_real_socket");
+        let mut sc = script(51200, &["files", "files_rel", "fdleak", "res", "popped"], 0, evs, "fds_real_socket");
         sc["keep"] = json!(cx.rng.gen_bool(0.5));
         sc["real_socket"] = json!(true);
         cx.push(sc);
